@@ -204,10 +204,14 @@ pub fn run_items<I: Sync + Send, F: Fn(&I, &mut Cx) + Sync>(property: &'static s
                 cx2.drain_panics();
                 api::rec_stop();
                 let _ = api::counters_take();
-                let k1: Vec<(&String, &String)> = cx.violations.iter().map(|v| (&v.key, &v.what)).collect();
-                let k2: Vec<(&String, &String)> = cx2.violations.iter().map(|v| (&v.key, &v.what)).collect();
-                if k1 != k2 || cx.vio_counts != cx2.vio_counts {
-                    err = Some(format!("non-reproducible violations in suite {} (first pass {} / second pass {} classes): machinery error", suite, k1.len(), k2.len()));
+                // same violation classes, same first instance each (counts are taken from the first pass: the
+                // recording pass may re-execute path prefixes and so re-report a prefix's violation)
+                let mut k1: Vec<(&String, &String)> = cx.violations.iter().map(|v| (&v.key, &v.what)).collect();
+                let mut k2: Vec<(&String, &String)> = cx2.violations.iter().map(|v| (&v.key, &v.what)).collect();
+                k1.sort();
+                k2.sort();
+                if k1 != k2 {
+                    err = Some(format!("non-reproducible violations in suite {} (first pass {:?} / second pass {:?}): machinery error", suite, k1.iter().map(|k| k.0).collect::<Vec<_>>(), k2.iter().map(|k| k.0).collect::<Vec<_>>()));
                 }
                 cx.violations = cx2.violations;
             }
